@@ -122,7 +122,7 @@ func vC13TimeoutAttempt(v int, vC13HT time.Duration) (ok bool, detail string, re
 		if v == 3 && (tcfg.ServerName != "" || !tcfg.InsecureSkipVerify) {
 			fail("Dial modified the caller's tls.Config (ServerName %q)", tcfg.ServerName)
 		}
-		if v == 4 && c.newCompressionWriter == nil {
+		if v == 4 && !vC13HasCompW(c) {
 			fail("compression not negotiated")
 		}
 		done := make(chan bool, 1)
